@@ -156,13 +156,16 @@ def wide_histories(n):
 def long_queue_histories(k):
     """One session with k events held before its login arrives: mid-session (more events follow) and after the session
     has ended.  Every held event is flushed, once, in order, before anything newer."""
-    def A(tag, typ, pid=0):
-        return {"k": "audit", "tag": tag, "sess": "s1", "typ": typ, "pid": pid, "res": "success", "args": False, "at": 0}
+    def A(tag, typ, pid=0, sess="s1"):
+        return {"k": "audit", "tag": tag, "sess": sess, "typ": typ, "pid": pid, "res": "success", "args": False, "at": 0}
     held = [A(1, "LOGIN", 1)] + [A(t, "OTHER") for t in range(2, k + 1)]
     login = {"k": "login", "id": 1, "pid": 1, "at": 0}
     mid = held + [login] + [A(t, "OTHER") for t in range(k + 1, k + 6)] + [A(k + 6, "CRED_DISP")]
     ended = held + [A(k + 1, "CRED_DISP"), login]
-    return [mid, ended]
+    # ... and then the PID is used again: the new session gets the new login, not what the long one left behind
+    reuse = ended + [A(k + 2, "LOGIN", 1, "s2"), {"k": "login", "id": 2, "pid": 1, "at": 0}, A(k + 3, "OTHER", 0, "s2"),
+                     A(k + 4, "CRED_DISP", 0, "s2")]
+    return [mid, ended, reuse]
 
 
 def write_hists(path, hists):
@@ -402,10 +405,10 @@ def run_family(ctx, prop):
                               "Auditd.Read was cancelled while a session without login held events: events were written "
                               "for it on the way out", {"kind": "worker-scenario", "scenario": ub[0], "observed": b["rec"]})
     wide_lo = wide_hi = -1
-    if prop in ("C16", "C02"):
+    if prop in ("C16", "C02", "C09"):
         # one cleanup pass over many sessions / logins at once (24 and 40; TrackerTraceWide.cfg has the larger sets)
         tw, _ = replay_l1(ctx, binp, wide_histories(24) + wide_histories(40) + long_queue_histories(300)
-                          + (long_queue_histories(1100) if not ctx.quick else []), "wide")
+                          + long_queue_histories(1100) + (long_queue_histories(2200) if not ctx.quick else []), "wide")
         hsw = split_trace(tw)
         base = len(allh)
         for i, hh in enumerate(hsw):
